@@ -19,7 +19,7 @@ VARIABLES cb, d, st, out
 mcvars == <<cb, d, st, out>>
 
 Init == /\ cb \in ComboIds
-        /\ d \in TX!StringsUpTo(DataAlphabet, MaxLen)
+        /\ d \in TX!StringsUpTo(DataAlphabet, IF ComboOf(cb).pfx = "" THEN MaxLen ELSE MaxLen - 1)   \* prefixed names: one shorter
         /\ st = "new"
         /\ out = [echoes |-> <<>>, twin |-> "", nseg |-> 0, twins |-> <<>>, rawsite |-> "", secure |-> TRUE]
 Compute == /\ st = "new" /\ st' = "done" /\ UNCHANGED <<cb, d>>
@@ -47,6 +47,13 @@ ContentPrefixed == Done => \A i \in 1..Len(out.echoes) :
                       out.echoes[i].site = "gp_content" => SiteTab[out.echoes[i].site].xf = "prefix"
 \* no site writes into an HTTP header: header values are server-chosen
 NoHeaderSite == \A c \in AllCombos : \A i \in 1..Len(c.sites) : SiteTab[c.sites[i]].ctx # "header"
+\* the raw (literal) branch of geturl() cannot be reached by a name planted at the root, whatever its prefix: a name
+\* holds no "/", so "://" never follows the prefix.  (The same directory page sites stay transformation "quote".)
+LiteralUnreachable == \A c \in AllCombos : \A i \in 1..Len(c.sites) :
+                          c.sites[i] \notin {"http_topper_lit", "http_gopherlink_lit"}
+\* ... while the branch itself exists and is raw
+ASSUME GetUrlLiteral("/URL:x://y") /\ GetUrlLiteral("URL:http://h/") /\ ~GetUrlLiteral("/URL:x:y") /\ ~GetUrlLiteral("/URL:://")
+ASSUME UrlBranch("/URL:x") /\ UrlBranch("URL:") /\ ~UrlBranch("/dc/URL:x") /\ TopperSiteFor("/URL:x://y") = "http_topper_lit"
 \* combos are identified by their id
 IdsUnique == \A x, y \in AllCombos : x.id = y.id => x = y
 \* witnesses (expected to be VIOLATED: the raw sites do let metacharacters through) - see MC_C13_witness.cfg
